@@ -32,6 +32,8 @@ def _check(doc, flags, bits, list_kind, early, lazy, choices, stop_after, abort_
     # contract as long as it settles and the hook fires afterwards)
     if loop._ready or loop.pending_tasks() or world.inflight:
         return (False, "not quiescent: pending tasks / resolver coroutines in flight")
+    if any(it.aclose_calls > 1 for it in world.iterators):
+        return (False, "source async iterator closed more than once")
     if world.gens_started != world.gens_closed:
         return (False, "source async iterator started but not closed exactly once")
     if loop.exceptions:
@@ -97,7 +99,7 @@ def blocked_deferred_resolver(b2: bool, b4: bool, lazy: bool, c0: int, c1: int, 
 
 BOUNDS = {
     "quick": [
-        "templates 0, 2, 4, 6, 10, 11 of the incremental family; stop kinds: none / aclose after 0..3 payloads / abort signal (AbortError, an exception, a non-exception reason) before the 0..5th settlement / source iterator raising at item 0..2 / resolver errors; symbolic directive flags, 5 sync-or-awaitable positions, consumer timing, 4 scheduler decisions; cells: template x list kind x early execution x stop kind",
+        "templates 0, 2, 4, 6, 10, 11, 15 of the incremental family (15: a stream whose second item fails as a whole, possibly asynchronously); hand-written source iterators count their aclose() calls; stop kinds: none / aclose after 0..3 payloads / abort signal (AbortError, an exception, a non-exception reason) before the 0..5th settlement / source iterator raising at item 0..2 / resolver errors; symbolic directive flags, 5 sync-or-awaitable positions, consumer timing, 4 scheduler decisions; cells: template x list kind x early execution x stop kind",
     ],
     "thorough": ["all 12 templates, larger budget"],
 }
@@ -110,13 +112,13 @@ ASSUMPTIONS = [
 def cells(tier):
     th = tier == "thorough"
     out = []
-    for doc in (range(len(DOCS)) if th else (0, 2, 4, 6, 10, 11)):
+    for doc in (range(len(DOCS)) if th else (0, 2, 4, 6, 10, 11, 15)):
         for lk in (0, 1, 2, 3):
             for early in (False, True):
                 for kind in (0, 1, 2, 3):
                     if kind == 3 and lk != 1:
                         continue
-                    if lk == 3 and (kind not in (0, 1) or doc not in (2, 4, 11)):
+                    if lk == 3 and (kind not in (0, 1) or doc not in (2, 4, 11, 15)):
                         continue
                     if not th and lk == 2 and kind in (0,):
                         continue
